@@ -4,7 +4,10 @@ set -e
 cd "$(dirname "$0")/.."
 export GOFLAGS=-mod=mod GOPROXY=off GOSUMDB=off GOTOOLCHAIN=local CGO_ENABLED=0
 mkdir -p .build/bin evidence replays
-(cd lean && lake build 2>&1 | tail -5)
+targets="BMV.Audit"
+for f in lean/BMV/Props/*.lean; do targets="$targets BMV.Props.$(basename "$f" .lean)"; done
+for f in lean/Oracle/C*.lean; do n=$(basename "$f" .lean | tr 'A-Z' 'a-z'); targets="$targets oracle-$n"; done
+(cd lean && flock /verif/.build/lake.lock lake build $targets 2>&1 | tail -5)
 cp /repo/go.sum harness/go.sum
 for d in harness/cmd/*/; do
   n=$(basename "$d")
